@@ -286,6 +286,8 @@ def check_log(ctx, c, log, com, mp, trace):
 
 def run(ctx, desc):
     rigs.LogCapture()
+    from canmon import oracles
+    oracles.install_pdo_structure(ctx, prefix="ambient_pdo_structure")
     rng = random.Random(repr(("c09", desc["cs"])))
     for _ in range(desc["cases"]):
         run_case(ctx, gen_case(rng))
